@@ -63,7 +63,7 @@ class VarExpr:
 class BaseInExpr:
     def __init__(self, values):
         self.var, *stringList = values
-        self.values = set(stringList)
+        self.values = set(string.value for string in stringList)
 
 
 class InExpr(BaseInExpr):
